@@ -47,16 +47,25 @@ def _ConvertType(t: LinearIR.Type) -> WebAssembly.Type:
     raise Exception(f"Unsupported type: {t}")
 
 
+def _ConvertValueType(t: LinearIR.Type) -> WebAssembly.ValueType:
+    """Type of a parameter, result or local. WebAssembly 1.0 only has numeric
+    value types here; the structure types would need the GC proposal."""
+    result = _ConvertType(t)
+    if not isinstance(result, WebAssembly.ValueType):
+        raise RuntimeError(f"Unsupported type for WebAssembly: {t}")
+    return result
+
+
 def _ConvertFunctionType(ft: LinearIR.FunctionType) -> WebAssembly.FunctionType:
     argTypes = []
     resultTypes = []
 
     for argType in ft.Arguments.values():
-        argTypes.append(_ConvertType(argType))
+        argTypes.append(_ConvertValueType(argType))
 
     # A void function has no result
     if not ft.ReturnType.IsVoid():
-        resultTypes.append(_ConvertType(ft.ReturnType))
+        resultTypes.append(_ConvertValueType(ft.ReturnType))
 
     return WebAssembly.FunctionType(argTypes, resultTypes)
 
@@ -308,7 +317,7 @@ class GenerateWasmVisitor(Visitor.DefaultVisitor):
         argCount = len(functionType.Arguments)
         for ref, t in valueReferenceTypes.items():
             valueReferenceToLocalMap[ref] = argCount + c.AddLocal(
-                WebAssembly.Local(_ConvertType(t))
+                WebAssembly.Local(_ConvertValueType(t))
             )
 
         ctx.SetReferenceToLocalMap(valueReferenceToLocalMap)
